@@ -190,7 +190,7 @@ def load_known():
 
 def merge(reports):
     out = {"evaluations": 0, "descriptors": {}, "monitors": {}, "counters": {}, "samples": [],
-           "violations": [], "violation_keys": {}, "notes": [], "reach": set(), "wall": 0.0}
+           "violations": [], "violation_keys": {}, "notes": [], "reach": set(), "wall": 0.0, "observed_sets": {}}
     for r in sorted(reports, key=lambda r: r["shard"]):
         out["evaluations"] += r["evaluations"]
         for d, nt in r["descriptors"].items():
@@ -212,6 +212,8 @@ def merge(reports):
             if n not in out["notes"]:
                 out["notes"].append(n)
         out["reach"].update(r["reach"])
+        for k, vals in r.get("observed_sets", {}).items():
+            out["observed_sets"].setdefault(k, set()).update(vals)
         out["wall"] += r["wall_s"]
     return out
 
@@ -332,6 +334,8 @@ def driver(args):
                                  "worst_deviation_over_bound": round(v["worst"], 6)}
                              for k, v in sorted(m["monitors"].items())},
                 "observed": dict(sorted(m["counters"].items())),
+                "distinct_states_observed": {k: {"count": len(v), "examples": sorted(v)[:5]}
+                                             for k, v in sorted(m["observed_sets"].items())},
                 "repo_functions_executed": sorted(m["reach"]),
                 "shards": len(shards),
                 "shards_reported": len(reports),
